@@ -3,13 +3,14 @@ import itertools
 
 from core.pool import pmap
 from core.runner import viol
-from harness import cluster
+from harness import ccheck, cluster
 
 KINDS = {"direct": [], "scale": [["S", 2]], "linear": [["L"]], "delay": [["F", 1]]}
 
 
 def run_case(case):
     cfg = case["cfg"]
+    ccheck.prelude(cfg)  # configurations flagged 'prelude' are explored after a first use of the same cluster shape in this process
     if case.get("path") is not None:
         vs = cluster.run_path(cfg, case["path"])
         return dict(n=1, violations=[viol(fp, what, dict(cfg=cfg, path=p)) for _c, fp, what, p in vs])
@@ -63,6 +64,7 @@ def cases(tier):
 
 def run(tier, seed, agg):
     cs = cases(tier)
+    cs += [dict(cfg=c) for c in ccheck.with_prelude([c["cfg"] for c in cs if len(c["cfg"]["consumers"]) <= 2], limit=12)]
     cs.sort(key=lambda c: -len(c["cfg"]["consumers"]))
     for r in pmap(run_case, cs):
         agg.add(r)
